@@ -153,7 +153,7 @@ def run_ops(rng, inst, thorough):
     ctx = inst.ctx
     names = inst.names
     ops = []
-    lim = 16 if thorough else 8
+    lim = 16 if thorough else 6
 
     def rec(op, pred, args, res, extra=None):
         kind, val = res
@@ -539,7 +539,12 @@ def oracle(inst):
 
 
 def build_instance(rng, backend, max_bits, thorough):
-    inst = Inst(random_decl(rng, max_bits), backend)
+    # redraw instances wider than intended (possible only if the declaration
+    # code changed), to bound the cost
+    for _ in range(50):
+        inst = Inst(random_decl(rng, max_bits), backend)
+        if inst.n <= max_bits:
+            break
     inst.preds = make_preds(rng, inst)
     inst.ops = run_ops(rng, inst, thorough)
     return inst
@@ -571,7 +576,7 @@ def enumerate_terms(rng, thorough):
 
 def correspond(ctx):
     mism = []
-    n_inst = 150 if ctx.thorough else 10
+    n_inst = 150 if ctx.thorough else 8
     max_bits = 10 if ctx.thorough else 8
     insts = []
     for i in range(n_inst):
